@@ -60,7 +60,7 @@ def inject(xt_dir, scratch, modules, attr_inserts=()):
         if not os.path.exists(p):
             raise ScanError('source file %s missing' % m['src'])
         with open(p, 'a') as f:
-            f.write('\n#[cfg(kani)] #[path = "%s"] mod verif_kani;\n' % os.path.join(hdir, m['file']))
+            f.write('\n#[cfg(kani)] #[allow(dead_code, unused_imports)] #[path = "%s"] pub(crate) mod verif_kani;\n' % os.path.join(hdir, m['file']))
     return hdir
 
 
@@ -174,9 +174,7 @@ def apply_local_stubs(xt_dir, hdir, harness_file, harness_fn, harness_modpath, h
             if f.endswith('.rs'):
                 pth = os.path.join(root, f)
                 t = open(pth).read()
-                t2 = t.replace('#[cfg(kani)] #[path = "', '#[cfg(kani)] #[allow(dead_code)] #[path = "').replace('"] mod verif_kani;', '"] pub(crate) mod verif_kani;')
-                if t2 != t:
-                    open(pth, 'w').write(t2)
+                t2 = t
     stub_path = 'crate::' + (harness_modpath + '::' if harness_modpath else '') + 'verif_kani::'
     for target, stub_fn in stubs:
         parts = target.split('::')
